@@ -12,6 +12,7 @@ From Hop Require Import Base Recv.
 Open Scope N_scope.
 
 Definition max_buffered_packets : N := 1000.     (* common.go maxBufferedPackets *)
+Definition accept_queue_cap : nat := 128.        (* muxer.go newMuxer: tubeQueue = make(chan Tube, 128) *)
 Definition mux_max_frame_data : N := 32768.      (* MaxFrameDataLength *)
 
 (* a decoded frame (frame.go fromBytes) *)
@@ -94,13 +95,18 @@ Fixpoint pick_from (l : list tube) (guess : N) (fuel : nat) : option N :=
   end.
 Definition pick_tube_id (m : mux) (rel : bool) : option N := pick_from (tubes_of m rel) (m_parity m) 128.
 
-(* make{Reliable,Unreliable}TubeWithID: refuses when the muxer is not running; adds the tube to its map
-   (addTube), and enqueues it for Accept when it answers a remote request (req = false) *)
+Definition queue_full (m : mux) : bool := (accept_queue_cap <=? List.length (m_queue m))%nat.
+
+(* make{Reliable,Unreliable}TubeWithID: refuses when the muxer is not running, and refuses a remote request
+   (req = false) when the Accept queue is full — BEFORE anything is registered (ErrAcceptQueueFull; the peer
+   repeats its REQ); otherwise adds the tube to its map (addTube) and enqueues it for Accept when it answers a
+   remote request *)
 Definition new_tube (rel : bool) (id ty epoch : N) : tube :=
   {| t_rel := rel; t_id := id; t_type := ty; t_epoch := epoch; t_state := TCreated; t_recv := recv_new;
      t_msgs := []; t_recv_closed := false |}.
 Definition make_tube (m : mux) (rel : bool) (ty id : N) (req : bool) : option (mux * tube) :=
   if negb (m_running m) then None
+  else if negb req && queue_full m then None
   else
     let t := new_tube rel id ty (m_epoch m) in
     Some ({| m_parity := m_parity m;
